@@ -10,7 +10,9 @@ Leg M  spec/Pool.tla, family `pool`: submissions (valid, conflicting, parent/chi
 Leg R  an edge cover of the explored graph (canonical revalidation) as stimulus paths on real nodes;
        after every step the reported pool is validated prefix by prefix with core on the INDEPENDENT
        ledger's tip state, a block is assembled from it (own assembly and coreutils.MineBlock) and
-       must be accepted by a copy of the node and by a fresh linear node; the body coreutils.MineBlock
+       must be accepted by a copy of the node and by a fresh linear node; every listed, previously
+       listed and must-keep transaction is looked up BY ID through the lookup of its own version
+       (invariant Retrievable: found <=> pooled in the spec); the body coreutils.MineBlock
        assembled is an event of its own, judged by the spec (MinedIsPrefix, MinedSelfContained,
        MinedFits, Minable: the assembler cuts the reported sequence at the block weight and takes a
        PREFIX); every execution is validated by TLC against PoolTrace.tla.
@@ -95,6 +97,8 @@ def selftest():
             ("the mined block was rejected", lambda e: e["op"] == "Obs", set_false("mine")),
             ("the assembled block skips a pooled transaction (not a prefix)", lambda e: e["op"] == "Mine" and len(e["ids"]) >= 2, lambda e: e.update(ids=e["ids"][1:])),
             ("the node rejected the block MineBlock assembled", lambda e: e["op"] == "Mine", lambda e: e.update(r="rejected")),
+            ("a listed transaction is not found by its id", lambda e: e["op"] == "Obs" and len(e["found"]) >= 1, lambda e: e.update(found=e["found"][1:])),
+            ("a removed transaction is still found by its id", lambda e: e["op"] == "Obs" and len(e["asked"]) > len(e["found"]), lambda e: e.update(found=e["asked"])),
             ("tip after AddBlocks differs", lambda e: e["op"] == "Done" and e["tip"] > 1, lambda e: e.update(tip=1))]
     ok = P.selftest_common(PROP, wd, binary, scens, "Pool_pool_edges.cfg", "st05", corr, "lose-accepted", r"^audit:c05:retention:")
     scfile = P.write_scens(wd, scens, "probe")
